@@ -93,6 +93,7 @@ add(EX, r'^overflow\(\+\)\(reorg_count, sampled_count\)$', 'counts of in-memory 
 add(EX, r'^overflow\(\+\)\(Add\(reorg_count, sampled_count\)\.0, last_n_count\)$', 'counts of in-memory headers', ['call:check_if_response_is_matched'])
 add(EX, r'^overflow\(-\)\(Add\(Add\(_, _\)\.0, last_n_count\)\.0, 1_usize\)$', 'under sampled_count != 0 the sum is >= 1', ['call:check_if_response_is_matched'])
 add(EX, r'^Index\(headers, Sub\(Add\(_, _\)\.0, 1_usize\)\.0\)$', POST + ': the index is headers.len() - 1', ['call:check_if_response_is_matched'])
+add(EX, r'^Index\(verifiable_headers, _\)$', POST + ': the same vector before the conversion to header views; bounds reorg_count and reorg_count + sampled_count are <= its length (F43 fix)', ['call:check_if_response_is_matched'])
 add(EX, r'^Index\(headers, _\)$', POST + ': every range bound (reorg_count, reorg_count + sampled_count, headers.len() - last_n_count) is <= headers.len()', ['call:check_if_response_is_matched'])
 add(EX, r'^overflow\(-\)\(headers\.len\(\), last_n_count\)$', POST, ['call:check_if_response_is_matched'])
 add(EX, r'^overflow\(-\)\(last_n_count, last_n_blocks\)$', 'in the Ordering::Greater arm of last_n_count.cmp(&last_n_blocks)', ['call:Ord>::cmp'])
@@ -141,15 +142,21 @@ add('verify_total_difficulty', r'^overflow\(\+\)\(EpochNumberWithFraction::index
 add('verify_mmr_proof', r'^SliceOp\(numbers, 2_usize\)$', 'windows(2): constant non-zero size (F30 fix: distinct-heights test)')
 add('verify_mmr_proof', r'^bounds\(0_usize, pair\.len\(\)\)$', 'pair is an element of windows(2): length exactly 2')
 add('verify_mmr_proof::{closure#2}', r'^bounds\([01]_usize, pair\.len\(\)\)$', 'pair is an element of windows(2): length exactly 2')
+SM = 'strict_merkle_proof_root'
+add(SM, r'^SliceOp\(pre, 2_usize\)$', 'windows(2): constant non-zero size (F31 fix: duplicate-index test)')
+add(SM + '::{closure#2}', r'^bounds\([01]_usize, pair\.len\(\)\)$', 'pair is an element of windows(2): length exactly 2')
+add(SM, r'^overflow\(\+\)\(index, 1_u64\)$', 'index is a u64 widened from a u32 leaf index or (index - 1) >> 1 of such a value: <= u32::MAX, so index + 1 cannot wrap u64', ['call:<u64 as From>::from'])
+add(SM, r'^overflow\(\?\)\(1_i32\)$', 'shift by the constant 1 < 64')
 add('check_continuous_headers', r'^SliceOp\(headers, 2_usize\)$', 'windows(2): constant non-zero size')
 add('check_continuous_headers', r'^bounds\([01]_usize, pair\.len\(\)\)$', 'pair is an element of windows(2): length exactly 2')
-add('verify_mmr_proof', r'^mmr_index\(index\)$', 'every header number was checked <= end_number <= MMR_LEAF_INDEX_MAX before the mapping closure runs', ['cmp:Gt(end_number, _)'])
-add('verify_mmr_proof', r'^mmr_index\(end_number\)$', 'end_number <= MMR_LEAF_INDEX_MAX was checked (fix 5d0becd)', ['cmp:Gt(end_number, _)'])
+add('verify_mmr_proof', r'^mmr_index\(index\)$', 'every header number was checked <= end_number <= MMR_LEAF_INDEX_MAX before the mapping closure runs', ['cmp:Gt(end_number, MMR_LEAF_INDEX_MAX)'])
+add('verify_mmr_proof', r'^mmr_index\(end_number\)$', 'end_number <= MMR_LEAF_INDEX_MAX was checked (fix 5d0becd)', ['cmp:Gt(end_number, MMR_LEAF_INDEX_MAX)'])
 
 # ---- light client protocol ----------------------------------------------------------------------------------------------
 add('LightClientProtocol::get_last_state_proof', r'^expect\(Peers::get_state\(\.\.\)\)$', 'every caller established the peer exists (get_peer_state / update_last_state succeeded / peers iterated from the map) in the same handler, and peers are removed only by the same protocol handler')
 add('LightClientProtocol::update_prove_state_to_child', r'^total_difficulty\(', TD_INV)
 add('LightClientProtocol::commit_prove_state', r'^total_difficulty\(', TD_INV)
+add('LightClientProtocol::commit_prove_state', r'^overflow\(\+\)\(to_number, 1_u64\)$', 'to_number is the number of a reorg header whose hash equals a stored last-N header: a proven header number (<= MMR_LEAF_INDEX_MAX, checked by verify_mmr_proof) (F42 fix)')
 add('LightClientProtocol::commit_prove_state', r'^overflow\(\+\)\(Option::unwrap_or\(\.\.\), 1_u64\)$', 'start_number of a stored MATCHED_BLOCKS record or a block number found in the stored last-N headers (store values)')
 add('LightClientProtocol::build_prove_request_content', r'^total_difficulty\(', TD_INV)
 add('LightClientProtocol::build_prove_request_content::{closure#0}', r'^total_difficulty\(', TD_INV)
